@@ -39,7 +39,7 @@ LEVEL_NOTE = "Trusts the canonical snapshot to expose every header field and eve
 TECHNIQUE = "runtime monitoring: icontract snapshot/ensure frame condition on LASFile.write + consecutive-output comparison + independent output tokeniser"
 
 _ctx = None
-EDITS = ["none", "index_replace", "index_inplace", "other_curve", "header", "insert_index", "delete_index", "index_tiny_shift", "index_tiny_inplace", "stale_duplicates"]
+EDITS = ["none", "index_replace", "index_inplace", "other_curve", "header", "insert_index", "delete_index", "index_tiny_shift", "index_tiny_inplace", "stale_duplicates", "index_integer_dtype"]
 CONSTR = ["scratch", "read", "wrong_stop"]
 
 
@@ -280,6 +280,12 @@ def construct(ctx, case):
         if d.dtype.kind != "f":
             return None, "text curve"
         d[0] = 123.456
+    elif edit == "index_integer_dtype":
+        # an index held in a (small / unsigned) integer dtype, decreasing: the first increment is negative
+        dt = [np.uint16, np.int16, np.uint8, np.int64, np.uint32][case.get("inplace_pos", 0) % 5 if "seed" not in case else case["seed"] % 5]
+        top = 250 if dt is np.uint8 else 30000
+        las.curves[0].data = np.array([top - (top // (n + 1)) * i for i in range(n)], dtype=dt)
+        triggered = True
     elif edit == "stale_duplicates":
         # one member of a duplicate family removed (the survivors keep ':2', ':3') and a curve renamed onto an existing name:
         # lasio does not renumber on its own, and writing must not either
